@@ -18,7 +18,7 @@ type c14Case struct {
 
 type c14Prog struct {
 	name  string
-	src   string            // string API source ("" for tree cases)
+	src   string // string API source ("" for tree cases)
 	data  func() map[string]any
 	files map[string]string // tree cases
 	page  string
@@ -211,7 +211,7 @@ func init() {
 	p := &Property{
 		ID:    "C14",
 		Level: "model_checking",
-		Rule: "model checking of the map-order environment: every range over a map (and reflect MapKeys) in the module is a choice point whose answers are all permutations of the key-sorted entries (answer 0 = sorted); for each program/tree of a corpus biased to map use (objects with 2-4 keys printed, nested, dumped, from data and structs; object literals, data maps and component arguments with several failing entries; pages with several undefined inserts, duplicate slots, faulty files) every execution with at most k non-default answers is run (deviation-bounded DFS, replayed prefixes must hit the same sites or the run aborts) and all executions of one case must yield byte-identical output or identical (message, line, path). A supplementary leg repeats each case under Go's natural random order",
+		Rule:  "model checking of the map-order environment: every range over a map (and reflect MapKeys) in the module is a choice point whose answers are all permutations of the key-sorted entries (answer 0 = sorted); for each program/tree of a corpus biased to map use (objects with 2-4 keys printed, nested, dumped, from data and structs; object literals, data maps and component arguments with several failing entries; pages with several undefined inserts, duplicate slots, faulty files) every execution with at most k non-default answers is run (deviation-bounded DFS, replayed prefixes must hit the same sites or the run aborts) and all executions of one case must yield byte-identical output or identical (message, line, path). A supplementary leg repeats each case under Go's natural random order",
 		Bounds: func(tier string) map[string]any {
 			b := 2
 			if tier == "thorough" {
